@@ -86,6 +86,65 @@ theorem Enforcement_frame (F : Nat → Bytes → Bytes) (s s' : Sys) (op : Op) (
 example : (step shaF (runH shaF init [] [.setup, .validate 0 0 .valid true, .activate]).1 (.revoke 5)).2.res.isErr = true := by
   decide
 
+/-! ### Durability: what did not persist did not change (channel-level instance used by C11)
+
+Every channel method of the model reports whether `persist()` ran.  `chanStep_np`: a reply that is not a
+panic and did not persist left the channel state unchanged — for every one of the 18 request kinds, the
+handler composites included (a refused composite whose validate half persisted has persisted).  The only
+memory change without persist in the model is the `panic` of `advance_holder_commitment_state` at
+`next = u64::MAX` (after `next_holder_commit_info = None`), see `Enforcement_no_advance_panic`. -/
+
+/-- **Enforcement_durable_chan** -/
+theorem Enforcement_durable_chan (F : Nat → Bytes → Bytes) (c : Chan) (op : Op)
+    (h : (chanStep F c op).persisted = false) (hp : (chanStep F c op).out.res ≠ .panic) :
+    (chanStep F c op).c = c :=
+  chanStep_np F c op h hp
+
+/-- **Enforcement_durable_step**: `s.disk = s.mem → step s op = (s', o) → o.res ≠ panic → s'.disk = s'.mem` -/
+theorem Enforcement_durable_step (F : Nat → Bytes → Bytes) (s s' : Sys) (op : Op) (o : Out)
+    (hd : s.disk = s.mem) (hs : step F s op = (s', o)) (hp : o.res ≠ .panic) : s'.disk = s'.mem := by
+  have := step_durable F s op hd (by rw [hs]; exact hp)
+  rw [hs] at this; exact this
+
+/-- **Enforcement_durable_run**: from `init`, after any request list in which no reply is a panic, the
+    persisted copy equals the in-memory channel state (counters, commitment infos, points, secret store,
+    closed flag) — a restart inserted anywhere is the identity on it. -/
+theorem Enforcement_durable_run (F : Nat → Bytes → Bytes) (ops : List Op)
+    (hnp : NoPanic (runH F init [] ops).2) :
+    (runH F init [] ops).1.disk = (runH F init [] ops).1.mem :=
+  run_durable F ops init [] rfl hnp
+
+/-- restart after such a history changes nothing -/
+theorem Enforcement_restart_identity (F : Nat → Bytes → Bytes) (ops : List Op)
+    (hnp : NoPanic (runH F init [] ops).2) :
+    (step F (runH F init [] ops).1 .restart).1 = (runH F init [] ops).1 := by
+  have hd := Enforcement_durable_run F ops hnp
+  generalize (runH F init [] ops).1 = s at hd
+  cases s with
+  | mk mem disk => simp only at hd; subst hd; rfl
+
+/-! ### The remaining `panic` path of the holder side is out of reach
+
+`advance_holder_commitment_state` computes `new_current_commitment_number + 1` with a plain `+` after
+`next_holder_commit_info = None`; in the model this is the `panic` outcome of `revoke` at
+`next = u64::MAX`.  The counter grows by at most one per request, so the path needs a history of at least
+2^64 - 1 requests; `next < 2^64 - 1` cannot be proved without such a bound (the model's counter is
+unbounded, like the history). -/
+
+/-- the holder counter never exceeds the number of requests served -/
+theorem Enforcement_next_le_length (F : Nat → Bytes → Bytes) (ops : List Op) :
+    (runH F init [] ops).1.mem.next ≤ ops.length := by
+  have := run_next_le F ops init [] K_init trivial
+  simpa [init] using this
+
+/-- **Enforcement_no_advance_panic**: after fewer than 2^64 - 1 requests no revoke request panics -/
+theorem Enforcement_no_advance_panic (F : Nat → Bytes → Bytes) (ops : List Op) (hb : ops.length < U64.MAX) (n : Nat) :
+    (revoke (runH F init [] ops).1.mem n).out.res ≠ .panic := by
+  intro h
+  have h1 := revoke_panic_only_overflow _ n h
+  have h2 := Enforcement_next_le_length F ops
+  omega
+
 /-! ### The pre-fix code violated the property (kept as documentation of F1)
 
 Without the `channel_closed` check in `revoke_previous_holder_commitment` the history
